@@ -487,6 +487,40 @@ def run_case(case):
                 res.violate("C04|explicit-context|%s" % d2, "get_parameterized_sql(ctx) differs from get_sql(ctx carrying a parameterizer)",
                             program=p, context=d2, got=a_sql, expected=b_sql, got_values=fp.vrepr(a_vals), expected_values=fp.vrepr(b_vals))
                 break
+    if sql_i is not None and sql_p is not None:
+        # caller-supplied parameterizers: a placeholder factory only changes the spelling of the k-th placeholder; a parameterizer
+        # that declines every value gives the inline rendering and no values
+        from pypika_tortoise.terms import Parameterizer
+
+        class _Never(Parameterizer):
+            def should_parameterize(self, value):
+                return False
+
+        try:
+            pz1 = Parameterizer(placeholder_factory=lambda k: ":v%d" % k)
+            c_sql = prog.build(p, dialect=d).get_sql(fp.CTX[d].copy(parameterizer=pz1))
+            pz2 = _Never()
+            n_sql = prog.build(p, dialect=d).get_sql(fp.CTX[d].copy(parameterizer=pz2))
+            res.transitions += 2
+            want, last, k = [], 0, 0
+            for t in lex(sql_p, lexd):
+                if t.kind == "PAR":
+                    k += 1
+                    want.append(sql_p[last:t.start] + ":v%d" % (t.value if isinstance(t.value, int) and d == "postgresql" else k))
+                    last = t.end
+            want = "".join(want) + sql_p[last:]
+            if c_sql != want or fp.vrepr(pz1.values) != fp.vrepr(vals):
+                res.violate("C04|placeholder-factory|%s" % d, "with a placeholder factory the statement is not the default parameterised statement with "
+                            "the k-th placeholder respelled (or the values differ)", program=p, dialect=d, got=c_sql, expected=want,
+                            got_values=fp.vrepr(pz1.values), expected_values=fp.vrepr(vals))
+            elif n_sql != sql_i or pz2.values:
+                res.violate("C04|declining-parameterizer|%s" % d, "a parameterizer that declines every value does not give the inline rendering",
+                            program=p, dialect=d, got=n_sql, expected=sql_i, got_values=fp.vrepr(pz2.values))
+        except LexError:
+            pass
+        except Exception as e:
+            res.violate("C04|custom-parameterizer|%s|raises|%s" % (d, type(e).__name__), "rendering with a caller-supplied parameterizer raised",
+                        program=p, dialect=d, error=str(e)[:200])
     if sql_i is None or sql_p is None:
         if (sql_i is None) != (sql_p is None):
             res.violate("C04|%s|raises-one-form" % d, "one of the two renderings raises, the other does not", program=p, dialect=d)
